@@ -164,36 +164,30 @@ Theorem C04_truthiness_loses_zero :
 Proof. split; [apply truthy_loses_only_zero | apply truthy_link_not_reproducible]. Qed.
 Print Assumptions C04_truthiness_loses_zero.
 
-(* calibration: the full statement, kept visible.  On the unchanged tree it is FALSE: run_calibration
-   does not hand pipeline_seed to ModelFittingDataTree (link "Calibration.run_calibration ->
-   ModelFittingDataTree" is false), so every fitness evaluation runs unseeded. *)
-Definition C04_mode_reproducible_calibration_full : Prop :=
+(* calibration (C04-F1 repaired: run_calibration hands pipeline_seed to ModelFittingDataTree): every
+   fitness evaluation and every champion re-run sits inside the bracket with the seed that was given *)
+Theorem C04_mode_reproducible_calibration :
   mode_reproducible src_srs_cfg (forwards_of src_links "calibration") MCalibration.
+Proof. apply mode_reproducible_fw; [exact C04_bracket_as_coded | vm_compute; reflexivity]. Qed.
+Print Assumptions C04_mode_reproducible_calibration.
 
-Theorem C04_mode_reproducible_calibration_refuted : ~ C04_mode_reproducible_calibration_full.
-Proof.
-  unfold C04_mode_reproducible_calibration_full.
-  replace (forwards_of src_links "calibration") with false by (vm_compute; reflexivity).
-  apply mode_not_reproducible_unforwarded.
-Qed.
-Print Assumptions C04_mode_reproducible_calibration_refuted.
+Theorem C04_seed_arrives_calibration :
+  forall e s, seed_through src_links "calibration" e s = s.
+Proof. apply forwards_seed_through. vm_compute. reflexivity. Qed.
+Print Assumptions C04_seed_arrives_calibration.
 
-(* what IS true of calibration as coded: the pipeline seed is ignored (same program as with no seed),
-   and it is reproducible exactly when every stochastic model carries its own seed *)
-Theorem C04_mode_reproducible_calibration_partial :
-  (forall seed bodies,
-     mode_prog MCalibration (forwards_of src_links "calibration") seed bodies =
-     mode_prog MCalibration (forwards_of src_links "calibration") None bodies) /\
-  (forall seed bodies, forallb self_seeded bodies = true ->
-     reproducible_and_restored src_srs_cfg
-       (mode_prog MCalibration (forwards_of src_links "calibration") seed bodies)).
-Proof.
-  split.
-  - replace (forwards_of src_links "calibration") with false by (vm_compute; reflexivity).
-    intros. apply unforwarded.
-  - intros. apply mode_reproducible_self_seeded_bodies; [exact C04_bracket_as_coded | assumption].
-Qed.
-Print Assumptions C04_mode_reproducible_calibration_partial.
+Example C04_calibration_witness :
+  self_seeded (mode_prog MCalibration (forwards_of src_links "calibration") (Some 0) [Draw 1; Seq Observe (Draw 2)]) = true /\
+  seed_through src_links "calibration" "setter" (Some 0) = Some 0.
+Proof. vm_compute. split; reflexivity. Qed.
+
+(* independently of any pipeline seed: a run (any mode, seed forwarded or not, seed given or not) whose
+   stochastic models all carry their own seed is reproducible and leaves the generator alone *)
+Theorem C04_self_seeded_bodies_reproducible :
+  forall m fw seed bodies, forallb self_seeded bodies = true ->
+    reproducible_and_restored src_srs_cfg (mode_prog m fw seed bodies).
+Proof. intros. apply mode_reproducible_self_seeded_bodies; [exact C04_bracket_as_coded | assumption]. Qed.
+Print Assumptions C04_self_seeded_bodies_reproducible.
 
 (* the optimiser seed reaches pygmo's global generator and the archipelago (plumbing only; pygmo's
    generator itself is outside the model) *)
@@ -271,23 +265,13 @@ Print Assumptions C04_models_reproducible_across_processes.
 
 (* ---- nobody else touches the process-wide generator's seed ---- *)
 
-(* full statement: no np.random.seed / set_state call anywhere outside util/randomize.py.
-   FALSE on the unchanged tree: pulse_processing calls np.random.seed(42) with no bracket. *)
-Definition C04_no_global_seeding_full : Prop := src_seed_sites = [].
-
-Theorem C04_no_global_seeding_refuted : ~ C04_no_global_seeding_full.
-Proof. unfold C04_no_global_seeding_full. vm_compute. discriminate. Qed.
-Print Assumptions C04_no_global_seeding_refuted.
-
-Definition known_seed_sites : list string :=
-  ["pyxel.models.phasing.pulse_processing.pulse_processing"%string].
-
-Theorem C04_no_global_seeding_partial :
-  forallb (fun s => string_in (fst s) known_seed_sites) src_seed_sites = true.
+(* no np.random.seed / set_state call anywhere in pyxel/ outside util/randomize.py (C04-seed42 repaired:
+   pulse_processing draws inside `with set_random_seed(42)`) *)
+Theorem C04_no_global_seeding : src_seed_sites = [].
 Proof. vm_compute. reflexivity. Qed.
-Print Assumptions C04_no_global_seeding_partial.
+Print Assumptions C04_no_global_seeding.
 
-(* why such a site is a leak: whatever the generator was, afterwards it is the seeded one *)
+(* why such a call would be a leak: whatever the generator was, afterwards it is the seeded one *)
 Theorem C04_bare_seed_forgets :
   forall gen val seed_gen next swap (s : Z) (g1 g2 : gen),
     gen_after gen val seed_gen next src_srs_cfg swap (BareSeed s) g1 =
